@@ -703,7 +703,15 @@ fn main() {
 	let rounds = arg_u64("rounds", 1);
 	for r in 0..rounds {
 		for (i, st) in states.iter().enumerate() {
-			scenario(&mut run, &format!("{}/r{}_{}", dir, r, st), st, &mut p, i == 1 || states.len() == 1);
+			let sdir = format!("{}/r{}_{}", dir, r, st);
+			let res = guarded(|| scenario(&mut run, &sdir, st, &mut p, i == 1 || states.len() == 1));
+			if let Err(msg) = res {
+				// a panic outside a guarded call (scenario set-up with the right tokens)
+				run.out.line(&json!({"id": run.id, "case": {"m": "scenario", "v": 0, "takes": true, "twin": true, "state": st},
+					"impl": [], "oracle": [format!("scenario {} could not be driven with the right tokens: {}", st, msg)]}));
+				run.id += 1;
+				let _ = std::fs::remove_dir_all(&sdir);
+			}
 		}
 	}
 	out.finish();
